@@ -158,7 +158,10 @@ Record step_obs := {
   so_pool_after : list obytes;    (* the client's pool after the call *)
   so_c2s : obytes; so_s2c : obytes;  (* the client's session keys after the call *)
   so_cur_key : Z;                 (* identifier of the servers' current key right after the reply *)
-  so_forged : list obytes         (* cookies of forged datagrams that reached the client during the call *)
+  so_forged : list obytes;        (* cookies of forged datagrams that reached the client during the call *)
+  so_nosend : Z                   (* nothing was sent although the client holds key exchange data:
+                                     1 the deadline of the call passed before the request left,
+                                     2 the key exchange names a server that is not an IP address; 0 otherwise *)
 }.
 
 Record ostate := {
@@ -202,14 +205,29 @@ Definition step_ok (s : ostate) (o : step_obs) : bool :=
         (if so_intact o then (level <=? olen (so_pool_after o)) && (so_served o) else true) &&
         (* the server answers a request it can authenticate, with a good reply *)
         (if so_forwarded o && so_openable o then so_served o else true) &&
+        (* ... and refuses a cookie sealed under a key that has expired *)
+        (if so_forwarded o && negb (so_openable o) then negb (so_served o) else true) &&
         (if so_served o
          then reply_ok (so_req o) (so_reply o) (so_reply_auth o) (so_reply_cookies o) (so_c2s o) (so_s2c o)
                 (c :: os_known s) (so_cur_key o)
          else true)
     end
   else
-    (* nothing sent: only when the pool was empty and no key exchange completed *)
-    match os_pool s with [] => negb (so_rekeyed o) && (olen (so_pool_after o) =? 0) | _ => false end.
+    if so_nosend o =? 0 then
+      (* nothing sent and no data held: only when the pool was empty and no key exchange
+         completed - a failed exchange leaves nothing behind *)
+      match os_pool s with [] => negb (so_rekeyed o) && (olen (so_pool_after o) =? 0) | _ => false end
+    else
+      (* the call ended before its request left (deadline, unusable server address): the cookie
+         taken for it is gone, the others are untouched; after a key exchange they are all new *)
+      ((so_nosend o =? 1) || (so_nosend o =? 2)) && distinct (so_pool_after o) &&
+      forallb (fun x => negb (mem x (os_sent s))) (so_pool_after o) &&
+      match os_pool s with
+      | [] => so_rekeyed o && (olen (so_pool_after o) <? o_pool_size) &&
+              forallb (fun x => negb (mem x (os_known s))) (so_pool_after o)
+      | p => negb (so_rekeyed o) && (olen (so_pool_after o) =? olen p - 1) &&
+             forallb (fun x => mem x p) (so_pool_after o)
+      end.
 
 Definition step_next (s : ostate) (o : step_obs) : ostate :=
   if so_sent o then
@@ -218,7 +236,7 @@ Definition step_next (s : ostate) (o : step_obs) : ostate :=
                    os_known := c :: map cf_bytes (so_reply_cookies o) ++ so_pool_after o ++ os_known s |}
     | None => {| os_pool := so_pool_after o; os_sent := os_sent s; os_known := so_pool_after o ++ os_known s |}
     end
-  else {| os_pool := so_pool_after o; os_sent := os_sent s; os_known := os_known s |}.
+  else {| os_pool := so_pool_after o; os_sent := os_sent s; os_known := so_pool_after o ++ os_known s |}.
 
 (* a whole history of calls of one client, from its start (empty pool) *)
 Fixpoint hist_ok (s : ostate) (l : list step_obs) : bool :=
